@@ -26,7 +26,7 @@ RULE = ("one state per (session, ETDRK order, nonlinear term, dt, input state, z
 ASSUMPTIONS = [
     "double-precision fidelity of step_fourier itself is decided by C02 (agreement with the reference scheme to 1e-12 in an x64 session); C19 adds "
     "the transform wrappers via a numpy-FFT cross-check",
-    "a session is a fresh interpreter with JAX_ENABLE_X64 = 0 / 1; inputs are created from the same float64 numpy data in both",
+    "a session is a fresh interpreter with JAX_ENABLE_X64 = 0 / 1 (plus one that imports the library in single precision and then enables x64); inputs are created from the same float64 numpy data in all",
     "agreement bound: 400*eps32*(1+|lambda dt|_max)*scale (conditioning of exp(z) in single precision); for the z-lattice the bound is applied where |z| <= 1e3 "
     "(beyond that the single-precision rounding of z itself changes exp(i Im z) by O(1): only finiteness and dtype are claimed there)",
 ]
@@ -72,6 +72,31 @@ def run_unit(u, rec):
     task = {k: v for k, v in u.items() if k in ("kind", "dts", "entry", "D", "N", "seed", "Ns")}
     r32 = child(task, False)
     r64 = child(task, True)
+    if u["kind"] in ("etdrk", "stepper"):
+        # third session: the interpreter starts in single precision, imports the library, and only then enables x64. Everything the library
+        # computes afterwards must be what the x64-from-the-start session computes (nothing may have been frozen at import time).
+        rl = child(dict(task, late_x64=True), False)
+        rec.check(rl["default_float"] == "float64" and rl["x64"], "C19/session/late_x64_is_float64", "enabling x64 after the import does not give a double-precision session")
+        tl = {json.dumps(it["key"]): it for it in rl["items"]}
+        rec.check(len(tl) == len(r64["items"]), "C19/session/tables_differ", "the late-x64 session explored different cases")
+        for it64 in r64["items"]:
+            itl = tl.get(json.dumps(it64["key"]))
+            if itl is None:
+                continue
+            rec.count(states=1, transitions=1, traces=1)
+            name = "etdrk" if u["kind"] == "etdrk" else str(it64["key"][1])
+            if it64["key"][0] == "leaves":
+                rec.check(itl["leaf_dtypes"] == it64["leaf_dtypes"], f"C19/late_x64/leaf_precision/{name}", "precomputed arrays differ in precision when x64 is enabled after the import",
+                          got=itl["leaf_dtypes"], want=it64["leaf_dtypes"], key=it64["key"])
+                continue
+            rec.check(itl["dtype"] == it64["dtype"], f"C19/late_x64/dtype/{name}", "result dtype differs when x64 is enabled after the import", got=itl["dtype"], want=it64["dtype"], key=it64["key"])
+            a, b = dec(itl["y"]), dec(it64["y"])
+            fin = np.isfinite(b)
+            rec.check(bool(np.all(np.isfinite(a) == fin)), f"C19/late_x64/finite/{name}", "finiteness differs when x64 is enabled after the import", key=it64["key"])
+            sc = max(1.0, float(np.max(np.abs(b[fin])))) if fin.any() else 1.0
+            err = float(np.max(np.abs(a[fin] - b[fin]))) if fin.any() else 0.0
+            rec.close(err, 1e-11 * sc, f"C19/late_x64/fidelity/{name}",
+                      "a session that enables x64 after importing the library computes with less than double precision (something was frozen at import time)", key=it64["key"], scale=sc)
     rec.check(r32["default_float"] == "float32" and not r32["x64"], "C19/session/default_is_float32", "the default session is not single precision", got=r32["default_float"])
     rec.check(r64["default_float"] == "float64" and r64["x64"], "C19/session/x64_is_float64", "the x64 session is not double precision", got=r64["default_float"])
     t64 = {json.dumps(it["key"]): it for it in r64["items"]}
